@@ -2,7 +2,9 @@ package loader
 
 import (
 	"encoding/csv"
+	"errors"
 	"fmt"
+	stdio "io"
 	"os"
 	"strings"
 
@@ -42,8 +44,17 @@ func CSVtoNumpyMulti(csvReader *csv.Reader, tbk io.TimeBucketKey, cvm *CSVMetada
 	for i := 0; i < chunkSize; i++ {
 		row, err2 := csvReader.Read()
 		if err2 != nil {
+			if !errors.Is(err2, stdio.EOF) {
+				// a malformed row is not the end of the file: rows must not be dropped silently
+				return nil, false, fmt.Errorf("read a csv row: %w", err2)
+			}
 			endReached = true
 			break
+		}
+		for _, idx := range cvm.ColumnIndex {
+			if idx >= len(row) {
+				return nil, false, fmt.Errorf("csv row has %d fields, column %d is needed: %v", len(row), idx+1, row)
+			}
 		}
 		csvChunk = append(csvChunk, row)
 		linesRead++
@@ -224,7 +235,7 @@ func convertCSVtoCSM(tbk io.TimeBucketKey, cvm *CSVMetadata, csvDataChunk [][]st
 	epochCol, nanosCol := readTimeColumns(csvDataChunk, cvm.ColumnIndex, cvm.Config)
 	if epochCol == nil {
 		log.Error("Error building time columns from csv data")
-		return
+		return nil, errors.New("error building time columns from csv data")
 	}
 
 	csmInit := io.NewColumnSeriesMap()
